@@ -29,7 +29,7 @@ func init() {
 		ID: "C01", Gen: genC01, Run: runC01, Quick: 1200, Thorough: 150000,
 		Real: []string{"pkg/exporter (whole, incl. TLS/DTLS client configuration)", "pkg/collector (whole: Start, accept loops, TCP/UDP/TLS/DTLS handlers, decode, template table)", "pkg/entities", "pkg/registry", "crypto/tls", "crypto/x509", "pion/dtls handshake and record layer"},
 		Stub: []string{"OS sockets and kernel TCP/UDP (simnet)", "wall clock (synctest bubble)", "tls.Dial's ServerName defaulting (5 lines in simnet.TlsDial)"},
-		Rule: "1-3 templates of 1-40 registry elements (all supported types, duplicates allowed), data sets of 1..fit records through the three add paths with boundary and random values, over tcp/udp/tls/dtls x IPv4/IPv6; tcp writes are segmented and delayed; a lossy-udp member injects loss, duplication and reordering; runs with DTLS contain pion/dtls's own (uncontrolled) goroutines; non-trivial = at least one data message delivered; distinct = distinct event-log hash",
+		Rule: "1-3 templates of 1-40 registry elements (all supported types, duplicates allowed), data sets of 1..fit records through the three add paths with boundary and random values, over tcp/udp/tls/dtls x IPv4/IPv6; tcp writes are segmented and delayed; a lossy-udp member injects loss, duplication and reordering; slow consumers, template lifetimes from 1 s to the largest value, stream collectors with small MaxBufferSize, a foreign exporter first; runs with DTLS contain pion/dtls's own (uncontrolled) goroutines; non-trivial = at least one data message delivered; distinct = distinct event-log hash",
 	})
 }
 
